@@ -169,6 +169,7 @@ type runCtx struct {
 	pubs     []pubFrame
 	ts       uint32
 	jump     bool
+	jumpBack bool
 	nev      int
 	tsSub    *world.HttpPeer
 	rtsp     *world.RtspPeer
@@ -177,6 +178,19 @@ type runCtx struct {
 	joinA    int
 	curAsc   []byte
 	compared int // frames compared with their published counterpart (vacuity guard)
+}
+
+// firstOf: index of the first published frame of the track (-1 if none yet; a stream without that track: 0).
+func (x *runCtx) firstOf(video bool) int {
+	if (video && x.sc.C.Video == "") || (!video && x.sc.C.Audio == "") {
+		return 0
+	}
+	for i, f := range x.pubs {
+		if f.video == video {
+			return i
+		}
+	}
+	return -1
 }
 
 func (x *runCtx) add(key, f string, a ...interface{}) {
@@ -212,6 +226,20 @@ func (x *runCtx) event(shape string) error {
 	if x.jump {
 		x.ts += 10000
 		x.jump = false
+	}
+	if x.jumpBack {
+		// never below what both tracks started at: lal's TS timestamps are relative to each track's first
+		// frame and cannot express an earlier instant (recorded in DESIGN.md, not claimed)
+		if iv, ia := x.firstOf(true), x.firstOf(false); iv >= 0 && ia >= 0 && len(x.pubs) > 0 {
+			base := x.pubs[iv].dts
+			if x.pubs[ia].dts > base {
+				base = x.pubs[ia].dts
+			}
+			if x.ts >= base+1500+40 {
+				x.ts -= 1500
+			}
+		}
+		x.jumpBack = false
 	}
 	salt := x.nev
 	idr, trail, sei := 5, 1, 6
@@ -289,6 +317,9 @@ func (x *runCtx) event(shape string) error {
 	case "J":
 		x.jump = true
 		return nil
+	case "Jb": // the next frame's timestamp steps BACK by 1.5 s (a publisher that re-bases its clock)
+		x.jumpBack = true
+		return nil
 	case "M": // an onMetaData message (encoders repeat it; its audiosamplerate is the encoder's idea of the output rate, e.g. the SBR rate of HE-AAC, not necessarily the AudioSpecificConfig's)
 		num := func(k string, v float64) ref.APair {
 			return ref.APair{Key: k, Val: ref.AVal{Kind: ref.ANumber, Num: v}}
@@ -319,7 +350,7 @@ func shapesFor(c codecs) []string {
 	if c.Audio == "aac" || c.Audio == "aac48" {
 		s = append(s, "Ash2")
 	}
-	return append(s, "J", "M")
+	return append(s, "J", "Jb", "M")
 }
 
 func (x *runCtx) join() error {
